@@ -190,7 +190,18 @@ def main():
         corp += harvest_tpcds()[:10]
     inputs += corp
     # the sqlparse-based analyzer sees the same texts (generated + every ansi corpus input)
-    inputs += [(q, "non-validating", w) for q, d_, w in list(inputs) if d_ == "ansi"]
+    # (TPC-DS texts are run under the sqlfluff analyzer only: D40 records what the deprecated analyzer does with them)
+    inputs += [(q, "non-validating", w) for q, d_, w in list(inputs) if d_ == "ansi" and not w.startswith("sqllineage/data/tpcds")]
+    if confirm == "D40":
+        qs = {os.path.basename(w): q for q, d_, w in harvest_tpcds()}
+        bad = []
+        for fn, rw in (("query04.sql", "R1 newline"), ("query05.sql", "R5 quote lower-case identifiers")):
+            q = qs[fn]
+            v = dict(REWRITES_ALL)[rw](q) if rw in dict(REWRITES_ALL) else r_quote(q)
+            if answer(q, "non-validating") != answer(v, "non-validating"):
+                bad.append({"clause": "tables_unchanged_by_layout", "file": fn, "rewrite": rw, "dialect": "non-validating"})
+        print(json.dumps({"violations": bad}))
+        return 1 if bad else 0
     # quick tier: every input, but only the QUICK_REWRITES whole-text rewrites; single boundaries only on generated statements
     QUICK_REWRITES = {"R1 newline", "R2 block comment", "R2 line comment", "R3 keywords Capitalised", "R4 identifiers upper", "R6 ;;", "R6 ; /*c*/ ;"}
     fails, evals, nontrivial, skipped = [], 0, 0, 0
